@@ -618,8 +618,21 @@ func (b *BidProvider) BuilderBid(ctx context.Context, slot phase0.Slot, parentHa
 // ---------------------------------------------------------------------------
 // beacon nodes (secondary registration targets and proposal preparation targets)
 
+type tagKey struct{}
+
+// WithTag marks a context handed to vouch, so that the stubs at the far end
+// can tell which harness call an incoming request belongs to (vouch passes
+// its caller's context down to the clients).
+func WithTag(ctx context.Context, tag any) context.Context {
+	return context.WithValue(ctx, tagKey{}, tag)
+}
+
+// TagOf returns the tag of WithTag (nil if none).
+func TagOf(ctx context.Context) any { return ctx.Value(tagKey{}) }
+
 // PrepRec is one SubmitProposalPreparations call.
 type PrepRec struct {
+	Tag           any
 	Party         string
 	Step, EndStep int
 	T, EndT       time.Duration
@@ -657,7 +670,7 @@ func (n *Node) SubmitValidatorRegistrations(ctx context.Context, regs []*consens
 }
 
 func (n *Node) SubmitProposalPreparations(ctx context.Context, preps []*apiv1.ProposalPreparation) error {
-	rec := &PrepRec{Party: n.Party, Step: simrt.Step(), T: simrt.Now(), Fees: map[phase0.ValidatorIndex]bellatrix.ExecutionAddress{}}
+	rec := &PrepRec{Tag: TagOf(ctx), Party: n.Party, Step: simrt.Step(), T: simrt.Now(), Fees: map[phase0.ValidatorIndex]bellatrix.ExecutionAddress{}}
 	for _, p := range preps {
 		if p == nil {
 			continue
